@@ -537,10 +537,13 @@ def sparseMatrix (e : Estimatable) (n? : Option Nat) : Except SparseErr (Nat × 
 
 /-! ### the module-level `_pauli_map` and what `get_sparse_matrix` hands out
 
-  For a one-qubit label on one qubit, `reduce` over a one-element list returns the element itself:
-  the caller receives the module's own X / Y / Z matrix object.  An in-place scalar multiplication
-  (`m *= k`) of that object changes every later result.  `SparseTable` records the current scalar
-  factor of the three shared matrices (1 in the pristine module). -/
+  `_convert_pauli_label_to_sparse` copies the table entry of every non-identity factor before it goes
+  into the Kronecker product, so every call hands out a matrix object of its own, also for a
+  one-qubit label on one qubit (where `reduce` over a one-element list returns that element itself).
+  An in-place scalar multiplication (`m *= k`) of a returned matrix therefore changes that handle only.
+  `SparseTable` records the current scalar factor of the module's three matrices (1 in the pristine
+  module); that no history of calls and in-place operations on results ever changes it is a theorem
+  (`Props.C04.sparse_history_independent`), not built into the types. -/
 
 structure SparseTable where
   fx : Int
@@ -556,10 +559,9 @@ def SparseTable.factor (t : SparseTable) : Nat → Int
   | 3 => t.fz
   | _ => 1
 
-/-- what a `get_sparse_matrix(label, n)` call returns: a new matrix `k · P_label`, or the shared object -/
+/-- what a `get_sparse_matrix(label, n)` call returns: a new matrix `k · P_label` owned by the caller -/
 inductive Handle where
   | fresh (k : Int) (l : Label) (n : Nat)
-  | shared (p : Nat)
   deriving DecidableEq, Repr
 
 /-- product of the table factors of the non-identity entries of the label -/
@@ -567,9 +569,7 @@ def labelFactor (t : SparseTable) (l : Label) : Int :=
   l.foldl (fun k x => k * t.factor x.2) 1
 
 def getLabel (t : SparseTable) (l : Label) (n : Nat) : Handle :=
-  match l, n with
-  | [(0, p)], 1 => if p = 1 ∨ p = 2 ∨ p = 3 then .shared p else .fresh (labelFactor t l) l n
-  | l, n => .fresh (labelFactor t l) l n
+  .fresh (labelFactor t l) l n
 
 inductive SparseOp where
   | get (l : Label) (n : Nat)
@@ -582,35 +582,17 @@ structure SparseSession where
   handles : List Handle
   deriving DecidableEq, Repr
 
-def SparseTable.scaleEntry (t : SparseTable) (p : Nat) (k : Int) : SparseTable :=
-  match p with
-  | 1 => { t with fx := t.fx * k }
-  | 2 => { t with fy := t.fy * k }
-  | 3 => { t with fz := t.fz * k }
-  | _ => t
-
 def SparseSession.step (s : SparseSession) : SparseOp → SparseSession
   | .get l n => { s with handles := s.handles ++ [getLabel s.table l n] }
   | .scale i k =>
     match s.handles[i]? with
-    | some (.shared p) => { s with table := s.table.scaleEntry p k }
     | some (.fresh k0 l n) => { s with handles := s.handles.set i (.fresh (k0 * k) l n) }
     | none => s
 
 def SparseSession.run (s : SparseSession) (ops : List SparseOp) : SparseSession := ops.foldl SparseSession.step s
 
 /-- the scalar by which a handle's current matrix differs from the true Pauli matrix of its label -/
-def handleFactor (t : SparseTable) : Handle → Int
+def handleFactor : Handle → Int
   | .fresh k _ _ => k
-  | .shared p => t.factor p
-
-/-- a history never scales a shared handle in place -/
-def noSharedScale : SparseSession → List SparseOp → Bool
-  | _, [] => true
-  | s, .get l n :: rest => noSharedScale (s.step (.get l n)) rest
-  | s, .scale i k :: rest =>
-    (match s.handles[i]? with
-     | some (.shared _) => false
-     | _ => true) && noSharedScale (s.step (.scale i k)) rest
 
 end QV.C04
